@@ -134,6 +134,16 @@ pub fn any_stack(g: &mut Gen, phys_pct: u32) -> Spec {
 
 /// an overlay on top, 1..max layers, pre-populated type-consistently
 pub fn overlay_stack(g: &mut Gen, phys_pct: u32, min_layers: usize, max_layers: usize) -> Spec {
+    if g.rng.pct(18) && max_layers >= 2 {
+        // all layers are directories of one filesystem instance
+        let n = g.rng.range(min_layers.max(2), max_layers);
+        let mut spec = Spec::OvlSub { base: Box::new(g.leaf(phys_pct)), dirs: LAYER_DIRS.iter().take(n).map(|s| s.to_string()).collect() };
+        if g.rng.pct(90) {
+            let view = g.gen_view(10);
+            g.populate(&mut spec, &view, false);
+        }
+        return spec;
+    }
     let n = g.rng.range(min_layers, max_layers);
     let mut layers = vec![];
     for i in 0..n {
@@ -186,7 +196,14 @@ pub fn gen_cfg(prop: &str, seed: u64) -> RunCfg {
             g.avoid_known = spec.has_ovl();
             let n = g.rng.range(4, 40);
             let w = swarm_weights(&mut g.rng, &W_DEFAULT);
-            let ops = gen_history(&mut g, &mut world, n, &w);
+            let mut ops = vec![];
+            for _ in 0..n {
+                if g.rng.pct(5) {
+                    ops.extend(flush_block(&mut g, &mut world, spec.has_phys()));
+                } else {
+                    ops.extend(gen_history(&mut g, &mut world, 1, &w));
+                }
+            }
             base_cfg(prop, "contract", seed, &mut g, vec![spec], ops)
         }
         "C09" => {
@@ -198,7 +215,16 @@ pub fn gen_cfg(prop: &str, seed: u64) -> RunCfg {
             // biased to the union/contract interactions: create over lower-only, remove, append
             let base: [u32; 19] = [2, 2, 1, 1, 4, 4, 1, 2, 14, 4, 9, 12, 4, 10, 10, 3, 3, 2, 2];
             let w = swarm_weights(&mut g.rng, &base);
-            let ops = gen_history(&mut g, &mut world, n, &w);
+            let mut ops = vec![];
+            for _ in 0..n {
+                if g.rng.pct(8) {
+                    // an append/create handle that stays open: opening changes nothing (append) and
+                    // every flush publishes the lower layer's bytes plus what was written
+                    ops.extend(flush_block(&mut g, &mut world, spec.has_phys()));
+                } else {
+                    ops.extend(gen_history(&mut g, &mut world, 1, &w));
+                }
+            }
             base_cfg(prop, "contract", seed, &mut g, vec![spec], ops)
         }
         "C10" => {
@@ -489,6 +515,10 @@ pub fn gen_cfg(prop: &str, seed: u64) -> RunCfg {
             let mut spec = match g.rng.weighted(&[25, 25, 40, 10]) {
                 0 => g.leaf(pp),
                 1 => Spec::Alt { inner: Box::new(g.leaf(pp)), p: g.alt_p(true) },
+                2 if g.rng.pct(20) => {
+                    let n = g.rng.range(2, 3);
+                    Spec::OvlSub { base: Box::new(g.leaf(pp)), dirs: LAYER_DIRS.iter().take(n).map(|s| s.to_string()).collect() }
+                }
                 2 => {
                     let n = g.rng.range(2, 3);
                     Spec::Ovl { layers: (0..n).map(|_| g.leaf(pp)).collect() }
@@ -950,6 +980,7 @@ pub fn strip_pre(s: &mut Spec) {
         Spec::Emb => {}
         Spec::Alt { inner, .. } => strip_pre(inner),
         Spec::Ovl { layers } => layers.iter_mut().for_each(strip_pre),
+        Spec::OvlSub { base, .. } => strip_pre(base),
     }
 }
 
@@ -1143,6 +1174,10 @@ fn push_pre(spec: &mut Spec, pre: Vec<crate::stack::Pre>) {
             let n = layers.len();
             push_pre(&mut layers[n - 1], pre)
         }
+        Spec::OvlSub { base, dirs } => {
+            let d = dirs[dirs.len() - 1].clone();
+            push_pre(base, pre.into_iter().map(|e| crate::stack::Pre { path: format!("{}{}", d, e.path), file: e.file }).collect())
+        }
     }
 }
 
@@ -1282,6 +1317,18 @@ fn simplify_spec(s: &Spec) -> Vec<Spec> {
             }
             for c in simplify_spec(inner) {
                 out.push(Spec::Alt { inner: Box::new(c), p: p.clone() });
+            }
+        }
+        Spec::OvlSub { base, dirs } => {
+            if dirs.len() > 1 {
+                for i in (0..dirs.len()).rev() {
+                    let mut v = dirs.clone();
+                    v.remove(i);
+                    out.push(Spec::OvlSub { base: base.clone(), dirs: v });
+                }
+            }
+            for c in simplify_spec(base) {
+                out.push(Spec::OvlSub { base: Box::new(c), dirs: dirs.clone() });
             }
         }
         Spec::Ovl { layers } => {
